@@ -447,6 +447,15 @@ where
         let l = tensor_prime(point_lower);
         let r = tensor_prime(point_upper);
 
+        let commitments: Vec<_> = commitments.into_iter().collect();
+        if commitments.len() != proof.len() {
+            return Err(Error::IncorrectInputLength(ark_std::format!(
+                "Expected one proof per commitment ({}), got {} proofs",
+                commitments.len(),
+                proof.len()
+            )));
+        }
+
         for (com, h_proof) in commitments.into_iter().zip(proof.iter()) {
             let row_coms = &com.commitment().row_coms;
 
